@@ -265,6 +265,10 @@ fn distinct_255(report: &mut Report, thorough: bool) {
     report.violations(viols);
 }
 
+#[cfg(not(feature = "ex"))]
+fn examples_part(_report: &mut Report, _thorough: bool) {}
+
+#[cfg(feature = "ex")]
 fn examples_part(report: &mut Report, thorough: bool) {
     let (n, nontrivial, viols) = crate::examples_run::run(thorough);
     report.part("bundled examples (fib, fib8, mulfib, vdf, rescue, rescue-raps, merkle, lamport) x option sets", n, nontrivial, json!({}));
@@ -278,6 +282,7 @@ pub fn replay(v: &Value) -> Vec<Violation> {
         let c = Case { shape: s, cfg: Cfg::from_json(&v["cfg"]), part: "replay" };
         return run_case(&c).viol.map(|(cl, d)| vec![to_violation(&c, cl, d)]).unwrap_or_default();
     }
+    #[cfg(feature = "ex")]
     if v.get("example").is_some() {
         return crate::examples_run::replay(v);
     }
